@@ -24,8 +24,8 @@ type c03 struct{ base }
 
 func init() {
 	core.Register(c03{base{id: "C03", level: "exploration", quickB: 16, thoroughB: 32,
-		rule:        "four monitors (the fourth, framing probes: messages of every type with arbitrary non-fatal bodies - oversized with lengths around multiples of L, unknown types, Sync/Flush/Close/Query with surplus, stray COPY messages, failing extended messages - interleaved with numbered probes Sync + Query; every probe must reach the parser exactly once and in order). (1) segmentation metamorphism: generated client byte streams (optional SSLRequest/N, startup, optional password, simple/extended/COPY traffic, surplus-carrying and truncated messages, optionally cut short at a random offset) are delivered under 6 (quick) / 12 (thorough) segmentations - all at once, one byte per read, cuts inside every message header, PRNG cut sets - and the normalised transcript + callback trace must be identical. (2) surplus isolation: Query/Parse/Bind/Describe/Execute/Close/Sync/Flush/CopyDone messages get surplus bytes appended inside their declared length (sentinel text, bytes that parse as a binary COPY row or as another protocol message); the transcript and every callback argument must equal the run without surplus and never contain the sentinel. (3) accessor cursor: buffer.Reader positioned on a generated body followed by a sentinel 'next message'; random sequences of GetString/GetBytes(n>=0)/GetUint16/GetUint32/GetPrepareType are compared with an independent cursor over the body (values, errors, no read beyond the message, no panic; checkptr build, child process). Non-trivial = stream with >= 3 messages and a cut inside a header, surplus case, or accessor sequence hitting the end of the body; distinct = stream shape / surplus placement / accessor sequence shape.",
-		need:        []string{"streams", "segmentations_compared", "cuts_inside_headers", "surplus_cases", "accessor_sequences", "accessor_calls_compared", "accessor_short_data_errors", "truncated_streams", "framing_probes_seen", "granule_positions"},
+		rule:        "four monitors (the fourth, framing probes: messages of every type with arbitrary non-fatal bodies - oversized with lengths around multiples of L, unknown types, Sync/Flush/Close/Query with surplus, stray COPY messages, failing extended messages, valid Parse/Bind/Describe/Execute/Close bodies cut short at any offset inside a correct frame - interleaved with numbered probes Sync + Query; every probe must reach the parser exactly once and in order). (1) segmentation metamorphism: generated client byte streams (optional SSLRequest/N, startup, optional password, simple/extended/COPY traffic, surplus-carrying and truncated messages, optionally cut short at a random offset) are delivered under 6 (quick) / 12 (thorough) segmentations - all at once, one byte per read, cuts inside every message header, PRNG cut sets - and the normalised transcript + callback trace must be identical. (2) surplus isolation: Query/Parse/Bind/Describe/Execute/Close/Sync/Flush/CopyDone messages get surplus bytes appended inside their declared length (sentinel text, bytes that parse as a binary COPY row or as another protocol message); the transcript and every callback argument must equal the run without surplus and never contain the sentinel. (3) accessor cursor: buffer.Reader positioned on a generated body followed by a sentinel 'next message'; random sequences of GetString/GetBytes(n>=0)/GetUint16/GetUint32/GetPrepareType are compared with an independent cursor over the body (values, errors, no read beyond the message, no panic; checkptr build, child process). Non-trivial = stream with >= 3 messages and a cut inside a header, surplus case, or accessor sequence hitting the end of the body; distinct = stream shape / surplus placement / accessor sequence shape.",
+		need:        []string{"short_bodies_framed", "streams", "segmentations_compared", "cuts_inside_headers", "surplus_cases", "accessor_sequences", "accessor_calls_compared", "accessor_short_data_errors", "truncated_streams", "framing_probes_seen", "granule_positions"},
 		assumptions: append([]string{"ParameterStatus runs are compared as multisets (the library iterates a Go map); after an accessor returned an error the rest of that sequence is not judged"}, commonAssumptions...)}})
 }
 
@@ -200,10 +200,24 @@ func (ch c03) framing(c *core.Ctx, env *hs.Env, rng *core.Rng, idx int) {
 	progs := map[string]*hs.Prog{}
 	stream := pg.Startup([][2]string{{"user", "framing"}})
 	n := 3 + rng.Intn(10)
+	cutShort := false
 	shape := ""
 	for i := 0; i < n; i++ {
 		var m []byte
-		switch k := rng.Intn(9); k {
+		switch k := rng.Intn(11); k {
+		case 9, 10: // a valid extended-protocol body cut short inside its (correct) frame: short data for the accessors
+			full := core.Pick(rng, [][]byte{
+				pg.Parse(core.Pick(rng, xNames), "short body", []uint32{23, 25, 1043, uint32(rng.Intn(5000))}[:1+rng.Intn(4)]),
+				pg.Bind("p", "nosuch", []int16{0, 1, 0}[:rng.Intn(4)], [][]byte{[]byte("abcdefgh"), nil, rng.Bytes(rng.Intn(20))}, []int16{1, 0}[:rng.Intn(3)]),
+				pg.Describe(core.Pick(rng, []byte("SP")), "nosuch"), pg.Execute("nosuch", 7), pg.Close(core.Pick(rng, []byte("SP")), "nosuch"),
+			})
+			body := full[5:]
+			m = pg.Raw(full[0], body[:rng.Intn(len(body))])
+			shape += "t"
+			// short data is answered by an error or by closing the connection: it is the last
+			// message of the stream and the probe behind it may or may not be reached
+			progs["short body"] = probe
+			n, cutShort = i+1, true
 		case 0: // oversized, any type, body length around multiples of L and not
 			sz := core.Pick(rng, []int{L + 1, L + 2, 2*L - 1, 2 * L, 2*L + 1, L + 100 + rng.Intn(3*L)})
 			m = pg.Raw(core.Pick(rng, []byte("QPBDECHSdcfp~")), rng.Bytes(sz))
@@ -283,13 +297,16 @@ func (ch c03) framing(c *core.Ctx, env *hs.Env, rng *core.Rng, idx int) {
 		}
 		want := fmt.Sprintf("framing-probe %d.%d.%d", c.Batch, idx, next)
 		if q != want {
-			c.Violate("framing", "a message was not consumed in exactly its declared length: the following probe was lost, duplicated or reordered", fmt.Sprintf("shape %s (one symbol per message; O oversized, U unknown type, s Sync/Flush+surplus, c stray COPY, P Parse+types, e failing extended, 0 empty, Q Query+surplus, C Close+surplus): parser saw %q, expected %q", shape, q, want), cs)
+			c.Violate("framing", "a message was not consumed in exactly its declared length: the following probe was lost, duplicated or reordered", fmt.Sprintf("shape %s (one symbol per message; O oversized, U unknown type, s Sync/Flush+surplus, c stray COPY, P Parse+types, t body cut short, e failing extended, 0 empty, Q Query+surplus, C Close+surplus): parser saw %q, expected %q", shape, q, want), cs)
 			return
 		}
 		next++
 		c.Count("framing_probes_seen", 1)
 	}
-	if next != n {
+	if cutShort {
+		c.Count("short_bodies_framed", 1)
+	}
+	if next != n && !(cutShort && next == n-1) {
 		c.Violate("framing", "a message was not consumed in exactly its declared length: the following probe was lost, duplicated or reordered", fmt.Sprintf("shape %s: only %d of %d probes reached the parser; server output %s", shape, next, n, trim(replyKinds(conn.Out()), 300)), cs)
 	}
 }
@@ -308,7 +325,7 @@ func (ch c03) segmentation(c *core.Ctx, envPlain, envAuth *hs.Env, rng *core.Rng
 		add(pg.SSLRequest())
 		shape += "ssl "
 	}
-	add(pg.Startup([][2]string{{"user", s.User}, {"database", "d"}}))
+	add(pg.Startup(append([][2]string{{"user", s.User}, {"database", "d"}}, s.Params...)))
 	if rng.Intn(4) == 0 {
 		env = envAuth
 		add(pg.Password(core.Pick(rng, []string{"pw", "pw", "wrong"})))
